@@ -52,7 +52,7 @@ def handleParse (o : Op) : String :=
         | _ => none
       match r with
       | none => "bad-op"
-      | some r => showRes (specAccept orc blob r)   -- the property's decision (outer public key compared)
+      | some r => showRes r
     | _, _ => "bad-op"
   | _, _, _, _ => "bad-op"
 
